@@ -25,8 +25,11 @@ ASSUMPTIONS = [
 DEPTH = {"quick": 3, "thorough": 4}
 P = "tick() + "
 
-K = ["1", "r + G", "T.q", "max(1, 2)", "T.tc(1)"]
-H = ["x * 10 + y", "k() + x + y", "(h(x - 1, y) if x > 0 else y)", "T.tc(x) + y"]
+K = ["1", "r + G", "T.q", "max(1, 2)", "T.tc(1)", "NONE"]
+H = ["x * 10 + y", "k() + x + y", "(h(x - 1, y) if x > 0 else y)", "T.tc(x) + y", "NONEIF"]
+# NONE / NONEIF: elements whose value is None (allow_none on): a held None must be a cache hit like any value
+SPECIAL = {"NONE": {"src": "lambda: None if tick() == 0 else 0", "allow_none": True},
+           "NONEIF": {"src": "lambda x, y=2: None if tick() + x == 0 else x * 10 + y", "allow_none": True}}
 G = ["x + r", "h(x)", "h(y=3, x=x)", "(g(x - 1) + 1 if x > 0 else k())", "_space.h(x, 1)",
      "sum([h(i) for i in range(x + 1)])", "h(x) + h(x, 2)"]
 F = ["g(x) + h(x)", "g(x) + g(x)", "g(x) + k() + G", "[g(i) for i in range(x + 1)][-1] + _space.k()",
@@ -35,7 +38,7 @@ F = ["g(x) + h(x)", "g(x) + g(x)", "g(x) + k() + G", "[g(i) for i in range(x + 1
 
 def programs(tier):
     if tier == "quick":
-        ks, hs, gs, fs = K[:2] + K[3:4], H[:3], G, F[:1] + F[3:4]
+        ks, hs, gs, fs = K[:2] + K[3:4] + K[5:6], H[:2] + H[4:5], G, F[:1] + F[3:4]
     else:
         ks, hs, gs, fs = K, H, G, F
     for k, h, g, f in itertools.product(range(len(ks)), range(len(hs)), range(len(gs)), range(len(fs))):
@@ -45,8 +48,8 @@ def programs(tier):
 def spec_of(prog):
     return {"refs": {"tick": "<tick>", "G": 1},
             "spaces": {"S": {"refs": {"r": 2},
-                             "cells": {"k": "lambda: " + P + prog["k"],
-                                       "h": "lambda x, y=2: " + P + prog["h"],
+                             "cells": {"k": SPECIAL.get(prog["k"]) or "lambda: " + P + prog["k"],
+                                       "h": SPECIAL.get(prog["h"]) or "lambda x, y=2: " + P + prog["h"],
                                        "g": "lambda x: " + P + prog["g"],
                                        "f": "lambda x: " + P + prog["f"]},
                              "spaces": {"T": {"refs": {"q": 5},
@@ -148,7 +151,7 @@ def run_history(prog, hist):
         for alt in sps:
             a = apply_query(m, alt)
             lg = TICK.take_log()
-            if a != ob or lg:
+            if a != ob or (lg and ob[0] == "ok"):     # a failed request holds nothing: it may run again
                 bad("same-element", {"first": op, "alt": alt, "alt_result": a, "formula_starts": lg},
                     {"result": ob, "formula_starts": []})
                 break
